@@ -59,10 +59,25 @@ Proof.
 Qed.
 Print Assumptions C07_wait_wake_close.
 
+(* "every copy listed in the cluster map": the table is rebuilt for a cluster map exactly when its (epoch, revision) is
+   later in the lexicographic order -- a later epoch counts whatever its revision, an equal or earlier pair never does --
+   and that order is a strict total order, so of two distinct maps exactly one replaces the other *)
+Theorem C07_map_adopted_iff_later : forall old new,
+  config_newer old new = true <-> (fst old < fst new \/ (fst old = fst new /\ snd old < snd new))%Z.
+Proof. exact config_newer_lex. Qed.
+Print Assumptions C07_map_adopted_iff_later.
+
+Theorem C07_map_order : (forall a, config_newer a a = false) /\
+  (forall a b c, config_newer a b = true -> config_newer b c = true -> config_newer a c = true) /\
+  (forall a b, a <> b -> config_newer a b = true \/ config_newer b a = true).
+Proof. split; [exact config_newer_irrefl|split; [exact config_newer_trans|exact config_newer_total]]. Qed.
+Print Assumptions C07_map_order.
+
 Example C07_example :
   min_seq [Row 7 50 false; Row 7 40 false; Row 0 0 true] = 40 /\ min_seq [Row 7 50 false; Row 8 40 false] = 0 /\
   min_seq [Row 7 50 false; Row 0 0 false] = 0 /\ min_seq [Row 0 0 true] = 0 /\
   snd (g_run (g_init [Row 0 0 false; Row 0 0 false])
         [GArrive 5; GReport 0 7 9; GPoll; GReport 1 7 4; GPoll; GReport 1 7 6; GPoll; GArrive 7; GClose; GPoll]) =
-  [[]; []; []; []; []; []; [GDelivered 5]; []; []; [GDropped 7]].
+  [[]; []; []; []; []; []; [GDelivered 5]; []; []; [GDropped 7]] /\
+  config_newer (1, 7)%Z (2, 3)%Z = true /\ config_newer (2, 3)%Z (1, 7)%Z = false /\ config_newer (1, 7)%Z (1, 7)%Z = false.
 Proof. vm_compute. repeat split; reflexivity. Qed.
